@@ -1,6 +1,7 @@
 (* modelrun: line-protocol driver around the extracted Coq model (hand-written, trusted as harness).
    One request per input line (TAB-separated fields), one answer line per request. *)
 open Model
+type string = Stdlib.String.t
 
 (* ---------------------------------------------------------------- numbers *)
 let rec pos_of_int64 (x : int64) : positive =
@@ -292,6 +293,99 @@ let handle (line : string) : string =
     let p = parse_fen f.(1) in
     string_of_z (leaves (nat_of_int (int_of_string f.(2))) (abs_state p))
   | "inD" -> (match set_fen false false (str_of_string f.(1)) with Some p -> b01 (in_D p) | None -> "reject")
+  | "pos" ->
+    (* pos <frc> <tokens after "position">: model of uci::position::position on a fresh engine state *)
+    let frc = f.(1) = "1" in
+    let toks = List.filter (fun t -> t <> "") (String.split_on_char ' ' f.(2)) in
+    let p0 = set_frc (parse_fen "startpos") frc in
+    (match position_cmd false (List.map str_of_string toks) p0 with
+     | None -> "PANIC"
+     | Some ((p, h), out) ->
+       let p = set_frc p frc in
+       Printf.sprintf "%s keys=%s diag=%s" (dump_pos p) (String.concat "," (List.rev_map string_of_n h))
+         (String.concat ";" (List.map string_of_str out)))
+  | "posspec" ->
+    (* specification of the same: <frc> <fen or startpos> <move tokens> -> final abstract state, number of
+       positions reached, unknown tokens *)
+    let frc = f.(1) = "1" in
+    let p0 = parse_fen ~frc f.(2) in
+    let toks = if f.(3) = "" then [] else List.filter (fun t -> t <> "") (String.split_on_char ' ' f.(3)) in
+    let ((s, reached), unknown) = play_tokens frc (abs_state p0) (List.map str_of_string toks) [] [] in
+    Printf.sprintf "abs=%s reached=%d unknown=%s" (sstate_str s) (List.length reached)
+      (String.concat ";" (List.map string_of_str unknown))
+  | "ucispec" ->
+    (* how the rules write every legal move: <frc> <fen> -> sorted "triple:string" *)
+    let frc = f.(1) = "1" in
+    let p = parse_fen ~frc f.(2) in
+    let st = abs_state p in
+    let items = List.map (fun m -> (mv_key (enc p m), string_of_str (move_str frc st m))) (legal st) in
+    String.concat "," (List.map (fun ((a, b, c), s) -> Printf.sprintf "%d-%d-%d:%s" a b c s) (List.sort compare items))
+  | "session" ->
+    let mode = f.(1) = "checked" in
+    let lines = if Array.length f < 3 || f.(2) = "" then [] else String.split_on_char '|' f.(2) in
+    let toks l = List.map str_of_string (List.filter (fun t -> t <> "") (String.split_on_char ' ' (String.map (fun c -> if c = '\t' then ' ' else c) l))) in
+    (match run_session mode (List.map toks lines) with
+     | Quit out -> "QUIT " ^ String.concat "|" (List.map string_of_str out)
+     | Cont (_, out) -> "CONT " ^ String.concat "|" (List.map string_of_str out)
+     | Panic site -> "PANIC " ^ string_of_str site
+     | NeedsClock _ -> "CLOCK"
+     | OutOfFuel -> "FUEL")
+  | "tt" ->
+    (* tt <esize> <ops>: ops = n:<mb> r:<mb> a:<key>:<val> p:<key> c h l ; entries are u64 values *)
+    let esize = n_of_string f.(1) in
+    let ops = if f.(2) = "" then [] else String.split_on_char ' ' f.(2) in
+    let dflt = N0 in
+    let eqb a b = (a = b) in
+    let t = ref (t_new_empty) in
+    let outs = List.map (fun op ->
+        match String.split_on_char ':' op with
+        | ["r"; mb] -> t := t_resize esize !t (n_of_string mb); "r"
+        | ["a"; k; v] -> (match t_add !t (n_of_string k) (n_of_string v) with Some t' -> t := t'; "a" | None -> "PANIC")
+        | ["p"; k] -> (match t_poll dflt !t (n_of_string k) with Some v -> string_of_n v | None -> "PANIC")
+        | ["c"] -> t := t_clear !t; "c"
+        | ["h"] -> (match t_hashfull dflt eqb !t with Some z -> string_of_z z | None -> "-")
+        | ["l"] -> string_of_n (!t).t_len
+        | _ -> failwith "tt op") ops in
+    let n = int_of_n (!t).t_len in
+    let dump = if n <= 4096 then String.concat "," (List.init n (fun i -> string_of_n (slot dflt !t (n_of_int i)))) else "big" in
+    String.concat " " outs ^ " | " ^ dump
+  | "matein1" ->
+    let p = parse_fen f.(1) in
+    Printf.sprintf "mates=%s inD=%s n=%d" (sorted_mvs (mating_moves p)) (b01 (in_D p)) (List.length (legal_moves p))
+  | "qvalue" ->
+    let p = parse_fen f.(1) in
+    (match qvalue_b (nat_of_int 40) p (n_of_string f.(2)) with Some (v, _) -> string_of_z v | None -> "budget")
+  | "uci2rel" ->
+    let p0 = parse_fen f.(1) in
+    let toks = if Array.length f < 3 || f.(2) = "" then [] else String.split_on_char ' ' f.(2) in
+    let (_, out) = List.fold_left (fun (p, acc) t ->
+        match find_move p (str_of_string t) with
+        | Some m -> (makemove true p m, mv_str m :: acc)
+        | None -> failwith ("uci2rel: not a legal move: " ^ t)) (p0, []) toks in
+    String.concat " " (List.rev out)
+  | "alldrawn" ->
+    let p0 = parse_fen f.(1) in
+    let toks = if Array.length f < 3 || f.(2) = "" then [] else String.split_on_char ' ' f.(2) in
+    let ident p = let s = sstate_str (abs_state p) in
+      (* identity of a position: placement, turn, castling-right flags, ep file *)
+      (match String.split_on_char '/' s with
+       | b :: t :: r :: e :: _ -> b ^ t ^ (String.map (fun c -> if c = '-' then '-' else 'x') r) ^ e
+       | _ -> s) in
+    let (p, game) = List.fold_left (fun (p, acc) t ->
+        let q = if t = "null" then makenull p else makemove true p (mv_of_string t) in (q, q :: acc)) (p0, [p0]) toks in
+    let window = List.filteri (fun i _ -> i <= int_of_z p.halfmoves) game in
+    let ids = List.map ident window in
+    let ms = legal_moves p in
+    let drawn m =
+      let q = makemove true p m in
+      int_of_z q.halfmoves >= 100 || (int_of_z q.halfmoves > 0 && List.mem (ident q) ids) in
+    if ms <> [] && List.for_all drawn ms then "1" else "0"
+  | "posspecfen" ->
+    let frc = f.(1) = "1" in
+    let p = parse_fen ~frc f.(2) in
+    (match denotes frc (abs_state p) (str_of_string f.(3)) with
+     | Some m -> fen_of (makemove true p (enc p m))
+     | None -> f.(2))
   | "valid" ->
     (match set_fen false false (str_of_string f.(1)) with Some _ -> "1" | None -> "0")
   | c -> failwith ("unknown command " ^ c)
